@@ -800,7 +800,7 @@ class Rename(Contract):
             *[S.land(S.n(result.axes[d].values) == S.n(labs[d]), S.forall(0, S.n(labs[d]), lambda k, d=d: S.at(result.axes[d].values, k) == S.at(labs[d], k)))
               for d in range(rank)])
         if how == "set_axis-copy":
-            yield "inplace=False:receiver-as-it-was", S.land(result is not env["arr"], self._as_it_was(S, case, env))
+            yield "inplace=False:receiver-untouched", S.land(result is not env["arr"], self._as_it_was(S, case, env))
         elif how == "set_axis-inplace":
             yield "in-place-returns-none", env["returned"] is None
 
